@@ -388,6 +388,51 @@ func famC15(g *Gen, o *Out, n int, thorough bool) {
 			}
 			o.Line(fmt.Sprintf("trav kind=rootsel %s eng=%s loads=%s", desc, engOf(res), cidsStr(loads)), res)
 		}
+		// (d') the same with several Dags in one SelectiveCar: the same root twice, a root inside the first
+		// Dag, a sibling sharing leaves — every block still once
+		if g.pick(2) == 0 || c < 10 {
+			second := d.root
+			if len(d.all) > 1 && g.pick(3) != 0 {
+				second = d.all[g.pick(len(d.all))]
+			}
+			mroots := []cid.Cid{d.root, second}
+			if g.pick(3) == 0 {
+				mroots = append(mroots, d.all[g.pick(len(d.all))])
+			}
+			var dags []car.Dag
+			for _, r := range mroots {
+				dags = append(dags, car.Dag{Root: r, Selector: sel})
+			}
+			var ropts []car.Option
+			if !dup {
+				ropts = append(ropts, car.TraverseLinksOnlyOnce())
+			}
+			sc := car.NewSelectiveCar(ctx, readStore{d}, dags, ropts...)
+			var buf bytes.Buffer
+			var cbs []string
+			err := sc.Write(&buf, func(b car.Block) error {
+				cbs = append(cbs, fmt.Sprintf("%x:%d:%d", b.BlockCID.Bytes(), b.Offset, b.Size))
+				return nil
+			})
+			loads := rootLoads(&buf)
+			res := "r=" + classifyTrav(err)
+			if err == nil {
+				res = fmt.Sprintf("r=ok v1=%x cb=%s", buf.Bytes(), strings.Join(cbs, ","))
+				if len(cbs) == 0 {
+					res += "-"
+				}
+				prep, err := sc.Prepare()
+				if err != nil {
+					res += " prep=err"
+				} else {
+					var dump bytes.Buffer
+					derr := prep.Dump(ctx, &dump)
+					res += fmt.Sprintf(" size=%d cids=%s dumpsame=%d", prep.Size(), cidsStr(prep.Cids()), b2i(derr == nil && bytes.Equal(dump.Bytes(), buf.Bytes())))
+				}
+			}
+			o.Line(fmt.Sprintf("trav kind=rootselmulti roots=%s %s eng=%s loads=%s", cidsStr(mroots), desc, engOf(res), cidsStr(loads)), res)
+			o.Count("rootselmulti")
+		}
 		o.Count("dag")
 	}
 	// (e) root-module WriteCar over a go-merkledag ProtoNode DAG
